@@ -80,6 +80,21 @@ RULE = ("(a) E1: every history of the union driver (2 apps, 3 sides, crowding, r
         "and the next sweep must do the work. non-trivial = histories that reached quiescence / met an expired mailbox")
 
 
+class C13SameSide(C13):
+    """two (then three) connections of one side on one mailbox: closes through stale handles, then quiescence"""
+
+    def configure(self, tier):
+        C13.configure(self, tier)
+        X = "X"
+        binds = [[(X, "A")], [(X, "A")], [(X, "A"), (X, "B")], [(X, "A"), (X, "B")], [(X, "B")]]
+        self.driver = Driver(binds, names=(), mids=("m",), msgs=(("p", "00", "i1"),), kinds=("bind", "open", "add", "close"),
+                             close_forms=("bare", "unopened"), max_adds=1, max_conns=4 if tier == "quick" else 5)
+        self.depth = 6 if tier == "quick" else 8
+
+    def seeds(self):
+        return [[("cbind", 0, "X", "A"), ("cbind", 1, "X", "A"), ("open", 0, "m"), ("open", 1, "m")]]
+
+
 class C13Restart(C13):
     """rows written by a previous process must be swept too: file-backed, one restart allowed before quiescence"""
 
@@ -93,6 +108,8 @@ class C13Restart(C13):
 
 
 def make_spec(tier, name=None):
+    if name == "c13-sameside":
+        return C13SameSide(tier)
     return C13Restart(tier) if name == "c13-restart" else C13(tier)
 
 
@@ -109,7 +126,9 @@ def run(pid, tier, seed, args):
     cov["fault_scenarios"] = sum(1 for s in timed.scenarios(tier, dict(storage="memory"), with_faults=True)[0] if s.fault is not None)
     spec2 = make_spec(tier, "c13-restart")
     return run_specs(pid, tier, seed, args, [("c13", spec, spec.depth, 60 if tier == "quick" else 1200),
-                                             ("c13-restart", spec2, spec2.depth, 40 if tier == "quick" else 600)], rule=RULE,
+                                             ("c13-restart", spec2, spec2.depth, 40 if tier == "quick" else 600),
+                                             ("c13-sameside", make_spec(tier, "c13-sameside"), make_spec(tier, "c13-sameside").depth,
+                                              30 if tier == "quick" else 400)], rule=RULE,
                      extra_cov=cov, extra_viols=viols, extra_samples=[{"timed_scenario": samples[1]}])
 
 
